@@ -254,4 +254,18 @@ def priority_scheduler(s, results: List[ExecutionResult],
             susobj = Suspend(sus.container_id, sus.pool_id)
             suspensions.append(susobj)
 
+            # remember the job now: a write-out that finishes within one tick
+            # is never observed in suspending_containers, and its operators
+            # would otherwise never be queued again
+            ops = [op for op in sus.operators if op.state() != OperatorState.COMPLETED]
+            retry_stats = RetryStats(
+                old_ram=sus.assignment.ram,
+                old_cpu=sus.assignment.cpu,
+                error=sus.error,
+                container_id=sus.container_id,
+                pool_id=sus.pool_id,
+            )
+            s.suspending[sus.container_id] = WaitingQueueJob(priority=sus.priority, p=ops[0].pipeline,
+                                                             ops=ops, retry_stats=retry_stats)
+
     return suspensions, new_assignments
